@@ -197,6 +197,7 @@ func (f *Fail) Error() string {
 type recKey struct{}
 
 type world struct {
+	everNames   map[string]bool
 	props       map[string]bool
 	labels      map[string]int
 	step        int
@@ -306,10 +307,25 @@ func (w *world) meFor(name string) string {
 	return name
 }
 
+// meName: indices from 100 on name the MultiEndpoint after an endpoint address (names and addresses are different
+// name spaces for the library; applications do call a MultiEndpoint after its primary endpoint).
+func meName(i int) string {
+	if i >= 100 {
+		return EPNames[(i-100)%len(EPNames)]
+	}
+	return MENames[((i%len(MENames))+len(MENames))%len(MENames)]
+}
+
 func (w *world) contexts() []string {
 	names := []string{"", "unknown-name"}
 	for n := range w.mes {
 		names = append(names, n)
+	}
+	for n := range w.everNames {
+		// names of MultiEndpoints that were configured once and removed since: routed like unknown names
+		if _, ok := w.mes[n]; !ok {
+			names = append(names, n)
+		}
 	}
 	sort.Strings(names)
 	return names
@@ -505,7 +521,11 @@ func (o *Options) build(w *world) (*grpcgcp.GCPMultiEndpointOptions, map[string]
 	dups := map[string]bool{}
 	w.pendingDups = dups
 	for _, me := range o.MEs {
-		name := MENames[((me.Name%len(MENames))+len(MENames))%len(MENames)]
+		name := meName(me.Name)
+		if w.everNames == nil {
+			w.everNames = map[string]bool{}
+		}
+		w.everNames[name] = true
 		if _, dup := mes[name]; dup {
 			continue
 		}
@@ -1140,7 +1160,7 @@ func RunDefaultDialer(c *Case, props map[string]bool) (res Result) {
 	w.labels["constructed-without-dial-func"]++
 	w.mes, w.def = model, def
 	follow := func(what string) {
-		ctxs := append([]string{"", "no-such-multiendpoint"}, MENames...)
+		ctxs := append(append([]string{"", "no-such-multiendpoint"}, MENames...), EPNames...)
 		for _, name := range ctxs {
 			list := w.mes[w.meFor(name)]
 			want := topUp(list, w.up)
